@@ -717,6 +717,7 @@ func famCodec(dir string, seed int64, tier string) {
 		}
 	}
 
+	apiHugeBlob(repDec)
 	wEnc.flush()
 	wWf.flush()
 	wDec.flush()
